@@ -38,6 +38,10 @@ class RetSets:
             cal = ex.strip(cal["e"])
         fk = ex.field_key(cal)
         if fk:
+            if fk == ("lzma_next_coder_s", "code") and f is not None:
+                nt = self.cg.narrow_code_targets(f, c)
+                if nt:
+                    return sorted(nt)
             return sorted(self.cg.slot_targets(fk)) or None
         if cal is not None and cal.get("k") == "var" and f is not None and cal.get("s") == "p":
             ts = self.cg.slot_targets(("param", f.name, cal["n"]))
